@@ -1,2 +1,87 @@
-From Coq Require Import ZArith List.
-From BT Require Import Model.RTree Model.TreeRun Model.Persist Model.PersistRun.
+(* C04 -- every change reaches the database: commit + reload reproduces the contents.
+   Model/Persist.v: events of an operation -> registration (as `persistent`
+   does it), __getstate__ with the embedding rule, a commit that dumps objects
+   in ANY order (oids are assigned while pickling), a fresh reader.
+   All theorems are under the guard no_embed_below: only the ROOT may hold a
+   single leaf that has no oid.  Without the guard the statement is false for
+   the faithful model and for both implementations (finding F16, see
+   C04_refuted): the theorems are therefore the _partial form. *)
+From Coq Require Import ZArith List Bool.
+From BT Require Import Model.RTree Model.TreeSpec Model.Check Model.CheckTree
+                       Model.Persist Model.PersistSpec Proofs.PersistProofs.
+Import ListNotations.
+Open Scope Z_scope.
+
+Section C04.
+Variable V : Type.
+
+(* each modification is announced: a stored object whose record would differ
+   after an insert / delete was marked changed by that operation *)
+Theorem C04_footprint_set_partial :
+  forall (veq : V -> V -> bool) (vs : bool) (ml mi fresh : nat) (t : tree V) (k : Z) (v : V)
+         (ifunset : bool) (stored : list nat),
+  (1 <= ml)%nat -> (2 <= mi)%nat -> Inv V ml mi t -> ids_ok V fresh t ->
+  no_embed_below V true stored t ->
+  let r := tset V veq vs ml mi fresh t k v ifunset in
+  forall i n n', mem i stored = true ->
+    find_node V t i = Some n -> find_node V (s_tree r) i = Some n' ->
+    getstate V stored t n <> getstate V stored (s_tree r) n' -> marked stored (s_ev r) i.
+Proof. exact (PersistProofs.footprint_set V). Qed.
+
+Theorem C04_footprint_del_partial :
+  forall (ml mi fresh : nat) (t : tree V) (k : Z) (r : dres V) (stored : list nat),
+  (1 <= ml)%nat -> (2 <= mi)%nat -> Inv V ml mi t -> ids_ok V fresh t ->
+  no_embed_below V true stored t ->
+  tdel V t k = Some r ->
+  forall i n n', mem i stored = true ->
+    find_node V t i = Some n -> find_node V (d_tree r) i = Some n' ->
+    getstate V stored t n <> getstate V stored (d_tree r) n' -> marked stored (d_ev r) i.
+Proof. exact (PersistProofs.footprint_del V). Qed.
+
+(* a commit that dumps (in any order) every registered object and every object
+   that received an oid brings every record up to date *)
+Theorem C04_commit_partial :
+  forall (ml mi : nat) (t : tree V) (p : pstate) (seq : list nat) (s : store V),
+  Inv V ml mi t -> NoDup (ids V t) ->
+  no_embed_below V true (p_stored p) t ->
+  synced V t p s -> mem (tid V t) (p_stored p) = true ->
+  complete V t p seq s = true ->
+  let '(p', s') := commit V t p seq s in
+  current V t (p_stored p') s' /\ no_embed_below V true (p_stored p') t /\
+  (forall i, In i (ids V t) -> mem i (p_stored p') = true \/
+             (exists r x items, t = Node r [(x, Leaf i items)])).
+Proof. exact (PersistProofs.commit_current V). Qed.
+
+(* a fresh reader of up-to-date records sees precisely the writer's contents,
+   by descent and along the leaf chain, in a sound tree *)
+Theorem C04_reader_partial :
+  forall (ml mi : nat) (t : tree V) (stored : list nat) (s : store V),
+  Inv V ml mi t -> NoDup (ids V t) ->
+  no_embed_below V true stored t -> current V t stored s ->
+  (forall i, In i (ids V t) -> mem i stored = true \/
+             (exists r x items, t = Node r [(x, Leaf i items)])) ->
+  let fuel := S (length (ids V t)) in
+  load_items V fuel s (tid V t) = contents V t /\
+  reader_iter V fuel s (tid V t) = contents V t /\
+  exists p, load V fuel s (tid V t) = Some p /\ inv_stored p.
+Proof. exact (PersistProofs.reader_sees V). Qed.
+
+End C04.
+
+Print Assumptions C04_footprint_set_partial.
+Print Assumptions C04_footprint_del_partial.
+Print Assumptions C04_commit_partial.
+Print Assumptions C04_reader_partial.
+
+(* The unguarded statement is false (F16): a non-root node holding one leaf
+   without oid is dumped before the object that references that leaf; the
+   reader then has two copies of the leaf.  Witness: the committed store of
+   this tree, in the order [root; node 1; node 4], read back. *)
+Theorem C04_refuted :
+  exists (t : tree Z) (p : pstate) (seq : list nat),
+    Inv Z 1 2 t /\ complete Z t p seq [] = true /\
+    let '(_, s') := commit Z t p seq [] in
+    reader_iter Z 20 s' (tid Z t) <> load_items Z 20 s' (tid Z t) \/
+    (forall q, load Z 20 s' (tid Z t) = Some q -> pcheck_fn q = false).
+Proof. exact PersistProofs.commit_reload_refuted. Qed.
+Print Assumptions C04_refuted.
